@@ -156,7 +156,7 @@ add("X00", "p01::read_probe_pend", T, 900, 8, body="crate::p01::read_probe::<tru
 
 # ---------------------------------------------------------------------------------------- C13
 for n in (4, 5, 6):
-    add("C13", "p13::idl_iface_name_n%d" % n, Q if n == 5 else T, 1800, 10, body="crate::p13::idl_iface_name::<%d>" % n, unwind=n + 3,
+    add("C13", "p13::idl_iface_name_n%d" % n, Q if n >= 5 else T, 1800, 10, body="crate::p13::idl_iface_name::<%d>" % n, unwind=n + 3,
         inputs="%d arbitrary ASCII bytes" % n, bound="interface_name production on %d bytes vs reference recogniser" % n, role="idl_iface_name")
 for n in (4, 6):
     add("C13", "p13::idl_field_name_n%d" % n, Q if n == 4 else T, 1200, 8, body="crate::p13::idl_field_name::<%d>" % n, unwind=n + 3,
@@ -324,7 +324,7 @@ def popcount(x):
 # quick tier = the instances measured to finish in seconds on a quiet machine. Instances in which `parameters` (content) precedes
 # the tag member make serde buffer the content (symbolic Content trees): 4-15 min or no verdict at all; they are thorough-tier only,
 # under a 150 s cap each (reported INCONCLUSIVE when they hit it).
-C05_FAST = set(['error_decode_m1_o0_c1', 'error_decode_m1_o0_c3', 'error_decode_m1_o0_c5', 'service_error_m0_o0_c0', 'service_error_m0_o0_c1', 'service_error_m0_o0_c2', 'call_decode_m00_o000_c0', 'call_decode_m01_o001_c1', 'call_decode_m16_o001_c0', 'call_strict_m00_o001', 'call_strict_m08_o003', 'call_strict_m15_o000', 'call_strict_m15_o715', 'error_decode_m0_o0_c0', 'error_decode_m1_o0_c0', 'error_decode_m1_o0_c2', 'error_decode_m1_o0_c4', 'error_decode_m2_o0_c0', 'error_decode_m3_o0_c0', 'error_decode_m3_o1_c3', 'service_error_m1_o0_c2', 'service_error_m1_o0_c4', 'service_error_m1_o0_c6', 'service_error_m1_o0_c8', 'service_error_m1_o1_c1', 'service_error_m1_o1_c3', 'service_error_m1_o1_c5', 'service_method_m0_o0_c0', 'service_method_m1_o0_c0', 'service_method_m1_o0_c2', 'service_method_m1_o0_c4', 'service_method_m1_o1_c1', 'service_method_m2_o0_c0', 'service_method_m3_o0_c0', 'service_method_m3_o0_c2', 'service_method_m3_o0_c4'])
+C05_FAST = set(['call_strict_m07_o000', 'call_strict_m07_o002', 'call_strict_m07_o005', 'call_strict_m03_o000', 'call_strict_m03_o001', 'error_decode_m1_o0_c1', 'error_decode_m1_o0_c3', 'error_decode_m1_o0_c5', 'service_error_m0_o0_c0', 'service_error_m0_o0_c1', 'service_error_m0_o0_c2', 'call_decode_m00_o000_c0', 'call_decode_m01_o001_c1', 'call_decode_m16_o001_c0', 'call_strict_m00_o001', 'call_strict_m08_o003', 'call_strict_m15_o000', 'call_strict_m15_o715', 'error_decode_m0_o0_c0', 'error_decode_m1_o0_c0', 'error_decode_m1_o0_c2', 'error_decode_m1_o0_c4', 'error_decode_m2_o0_c0', 'error_decode_m3_o0_c0', 'error_decode_m3_o1_c3', 'service_error_m1_o0_c2', 'service_error_m1_o0_c4', 'service_error_m1_o0_c6', 'service_error_m1_o0_c8', 'service_error_m1_o1_c1', 'service_error_m1_o1_c3', 'service_error_m1_o1_c5', 'service_method_m0_o0_c0', 'service_method_m1_o0_c0', 'service_method_m1_o0_c2', 'service_method_m1_o0_c4', 'service_method_m1_o1_c1', 'service_method_m2_o0_c0', 'service_method_m3_o0_c0', 'service_method_m3_o0_c2', 'service_method_m3_o0_c4'])
 C05_B = "one envelope at the serde data-model level (token deserializer with serde_json's dispatch rules, cross-checked natively against serde_json)"
 NAMES6 = ["parameters", "oneway", "more", "upgrade", "x"]
 CALL_CASES = ["null", "{}", "{v: u32}", "{s: str}"]
@@ -349,8 +349,8 @@ NAMES_S = ["oneway", "more", "upgrade", "x"]
 for mask in range(16):
     k = 2 + popcount(mask)
     for o in range(factorial(k)):
-        if k >= 5 and o % 11 != 0:
-            continue   # 5 and 6 members: every 11th order (all orders of <= 4 members)
+        if k >= 5 and o % 11 != 0 and o >= 6:
+            continue   # 5 and 6 members: the six orders that permute the last three members, then every 11th order (all orders of <= 4 members)
         add("C05", "p05::call_strict_m%02d_o%03d" % (mask, o), Q if "call_strict_m%02d_o%03d" % (mask, o) in C05_FAST else T, 150, 6, build="prod",
             body="crate::p05::call_decode_strict::<%d, %d>" % (mask, o), unwind=50, batch=16,
             inputs="Call<Strict> (method type with deny_unknown_fields) from {method, parameters, %s} in permutation #%d; flag values and the unknown member's value symbolic" % (", ".join(n for i, n in enumerate(NAMES_S) if mask >> i & 1), o),
@@ -388,6 +388,12 @@ add("C05", "p05::call_roundtrip", T, 1500, 12, build="prod", unwind=50,
 add("C05", "p05::error_encode_roundtrip", T, 1500, 12, build="prod", unwind=50,
     inputs="ReplyError-derived enum value with symbolic variant (2 unit, struct, renamed field, borrowed+Option) and symbolic field values: encode, check shape and wire names, decode, compare",
     bound="one error", role="error_encode_roundtrip")
+ERRV = ["unit variant", "second unit variant", "struct variant {code}", "variant with a renamed field", "borrowed str + Option field", "variant whose only field is an Option"]
+for (w, opt, q) in ((0, False, False), (2, False, False), (3, False, True), (4, True, False), (4, False, False), (5, True, False), (5, False, True)):
+    add("C05", "p05::error_roundtrip_v%d%s" % (w, "_some" if opt else "_none" if w >= 4 else ""), Q if q else T, 900, 8, build="prod",
+        body="crate::p05::error_encode_roundtrip_v::<%d, %s>" % (w, "true" if opt else "false"), unwind=50,
+        inputs="ReplyError-derived enum value: %s%s, field values symbolic: encode to tokens, check shape and wire names, decode, compare" % (ERRV[w], (", Option field %s" % ("set" if opt else "unset")) if w >= 4 else ""),
+        bound="one error value of a fixed shape", role="error_roundtrip_v")
 add("C05", "p05::reply_roundtrip", T, 1500, 12, build="prod", unwind=50,
     inputs="Reply<Out> with parameters present/absent and continues in {None, false, true} (symbolic): encode, check shape, decode from either member order, compare",
     bound="one reply", role="reply_roundtrip")
